@@ -54,7 +54,7 @@ Module P1.
     - apply good_set_h. assumption.
     - apply good_set_h. assumption.
     - apply good_settle. apply good_fire. assumption.
-    - apply good_settle. apply good_fire. assumption.
+    - apply good_settle. apply good_fire. apply good_settle. assumption.
     - apply good_fire. assumption.
   Qed.
 
@@ -118,7 +118,7 @@ Module P2.
     - apply good_set_h. assumption.
     - apply good_set_h. assumption.
     - apply good_settle. apply good_fire. assumption.
-    - apply good_settle. apply good_fire. assumption.
+    - apply good_settle. apply good_fire. apply good_settle. assumption.
     - apply good_fire. assumption.
   Qed.
 
